@@ -26,8 +26,10 @@ def xCubeCodeQuery (Lx Ly Lz : Nat) : List String → Option String
   | ["type", c] =>
     some ((XCubeCode.stabilizerType Lx Ly Lz (parseCoord c)).getD "ERR value")
   | ["deform", name, axis, c] =>
-    some (match XCubeCode.getDeformation name axis (parseCoord c) with
+    -- `-` = the keyword argument `deformation_axis` is omitted
+    some (match XCubeCode.getDeformation name (if axis == "-" then none else some axis) (parseCoord c) with
       | none => "ERR value" | some m => Lat3Db.showPauliMap m)
+  | ["rankfamily"] => some (xCubeCodeShowCoords (XCubeCode.selStabs Lx Ly Lz))
   | ["n"] => some (toString (XCubeCode.lattice Lx Ly Lz).toCodeData.n)
   | ["k"] => some (toString (XCubeCode.lattice Lx Ly Lz).toCodeData.k)
   | _ => none
